@@ -166,7 +166,7 @@ PROPS = {
     ], layers={"quick": ["c15-sources", "c15-robust", "c15-junk", "c15-runnable"], "thorough": ["c15-sources", "c15-robust", "c15-junk", "c15-runnable"]}),
     "C14": dict(level="exploration", engine="benum",
         technique="bounded-exhaustive catalog-entry enumeration through routecmd.build -> route.NewTable with an independent expectation; history variant through the C01 pipeline",
-        level_text="The product of service names, addresses, ports, urlprefix forms, every <=2-subset of 22 option strings and 17 extra-tag shapes (quotes, backslashes, non-ASCII, newlines, commas, injected commands), with prometheus and statsd_raw metrics providers installed, is turned into route commands by the real routecmd.build next to a well-formed neighbour and fed to the real route.NewTable: the text must be accepted, the neighbour present, an expressible entry denoted exactly, an inexpressible one absent.",
+        level_text="The product of service names, addresses, ports, urlprefix forms, every <=2-subset of 22 option strings and 17 extra-tag shapes (quotes, backslashes, non-ASCII, newlines, commas, injected commands), with prometheus and statsd_raw metrics providers installed, is turned into route commands by the real routecmd.build next to a well-formed neighbour and fed to the real route.NewTable: the text must be accepted, the neighbour present, an expressible entry denoted exactly, an inexpressible one absent. (histories) every history of <=3 catalog changes of one service through the real ServiceMonitor.Watch while the health index does not move.",
         level_note="Expressibility is decided by an independent predicate (name without white space, finite numeric weight, no double quote/newline in tags or options). Tags containing a comma or surrounding white space, and a redirect option without URL, are left open.",
         units=[
         unit("c14", "registry/consul", ["consul/c14_test.go", "consul/c14_watch_test.go"], "^TestVerifC14Reg"),
